@@ -15,9 +15,9 @@
           and the keep/remove table as one-step lemmas.
   Part II (gate): for every interleaving of the labelled transition system of the gate, with any
           number of `spawn_missing_watchers` batches — `gate_safe`, `pass_safe`, `detach_safe`,
-          `ungated_only_after_ready`; beyond the property: `gate_can_open_partial` (the gate can open
-          from every reachable state in which no indexing cycle failed) with `gate_stuck_witness`
-          for the failing path; and witnesses that three broken variants violate safety.
+          `ungated_only_after_ready`, `late_kind_witness` (by design, F4); beyond the property:
+          `gate_can_open_partial` (from every reachable Healthy state) with `gate_stuck_of_leak`
+          and two reachable witnesses; and witnesses that three broken variants violate safety.
 -/
 import Kopf.Base.J
 import Kopf.Lemmas.C17_Mirror
@@ -80,15 +80,20 @@ theorem mirror_upto_pyeq (veq : V → V → Bool) (cfg : List (Indexer Id Res L)
 
 /- Full statement of the property's first sentence (FALSE of the code, see `mirror_witness`):
      ∀ veq …, (s.ixs c.id).val k o = groupBy (fun o => (refRun cfg bk c o RefSt.init evs).contrib) k o
-   Proved below under the guard that `==` identifies only identical values (no `True`/`1`/`1.0`
-   mixing among one object's successive results under one key). -/
-/-- **Mirror (exact), partial**: when `veq a b → a = b`. -/
-theorem mirror_partial (veq : V → V → Bool) (hveq : ∀ a b, veq a b = true → a = b)
+   Proved below under a guard on the HISTORY that Python's own `==` (`J.pyEq`) can satisfy. -/
+/-- **Mirror (exact), partial**: for an object none of whose results (of this index function) contains
+    `==`-twins — two values under one key that compare equal but differ, like `1`/`True` — the index
+    holds exactly the latest documented values. The guard is sufficient, and it is what finding
+    C17-F1 is about: `mirror_witness` violates it with the smallest possible history. -/
+theorem mirror_partial (veq : V → V → Bool)
     (cfg : List (Indexer Id Res L)) (bk : Nat) (hnd : (cfg.map (·.id)).Nodup)
     (evs : List (Event Id Res L K V O)) (s : State Id K V O)
-    (h : run veq cfg bk State.init evs = some s) (c : Indexer Id Res L) (hc : c ∈ cfg) (k : Option K) (o : O) :
-    (s.ixs c.id).val k o = groupBy (fun o => (refRun cfg bk c o RefSt.init evs).contrib) k o :=
-  Rel.eq_of_lawful hveq (RelH.toRel (mirror_upto_pyeq veq cfg bk hnd evs s h c hc k o))
+    (h : run veq cfg bk State.init evs = some s) (c : Indexer Id Res L) (hc : c ∈ cfg) (k : Option K) (o : O)
+    (hnt : NoTwins veq (refRun cfg bk c o RefSt.init evs).hist) :
+    (s.ixs c.id).val k o = groupBy (fun o => (refRun cfg bk c o RefSt.init evs).contrib) k o := by
+  obtain ⟨s', h', _, hl⟩ := mirror_gen veq cfg bk hnd evs State.init _ State.invAll_init (link_init veq cfg)
+  rw [h] at h'; cases h'
+  exact RelH.eq_of_noTwins (hl c hc o).2.1 hnt ((hl c hc o).2.2 k)
 
 /-- **Keys are unique** in `Index.__items`, in every `Store.__items` and in `Index.__reverse` after
     any history: the association lists of the model denote Python dicts (so the first-match lookups
@@ -122,6 +127,13 @@ variable (veq : V → V → Bool) (cfg : List (Indexer Id Res L)) (bk : Nat) (hn
   (s s' : State Id K V O) (e : Event Id Res L K V O) (hi : s.InvAll)
   (hs : step veq cfg bk s e = some s') (c : Indexer Id Res L) (hc : c ∈ cfg)
 include hnd hi hs hc
+
+/-- **Frame**: an event touches the index entries of its own object only. This is what justifies
+    modelling the concurrent per-object workers as one sequence of events: index updates of
+    different objects commute. -/
+theorem others_untouched (k : Option K) (o : O) (ho : o ≠ e.obj) :
+    (s'.ixs c.id).val k o = (s.ixs c.id).val k o := by
+  rw [view_of_step veq cfg bk hnd s s' e hi hs c hc, view_other _ _ _ _ _ _ ho]
 
 /-- `DELETED`: the object's values are removed (when its kind is indexed at all). -/
 theorem deleted_discards (hk : cfg.any (fun c' => decide (c'.res = e.res)) = true)
@@ -302,6 +314,18 @@ theorem mirror_witness :
       J.num 1 ≠ J.bool true :=
   ⟨[evW 0 (J.num 1), evW 1 (J.bool true)], _, rfl, rfl, rfl, by intro h; cases h⟩
 
+/-- the guard of `mirror_partial` is satisfiable with Python's real `==`: the same function returns
+    `{1: "a"}` then `{1: "b"}` for one object — no twins, so the index holds exactly `"b"` -/
+example : NoTwins J.pyEq (refRun [cW] 60 cW 10 (RefSt.init : RefSt Nat J) [evW 0 (J.str "a"), evW 1 (J.str "b")]).hist := by
+  intro m1 h1 m2 h2 k v1 v2 e1 e2 hv
+  have hh : (refRun [cW] 60 cW 10 (RefSt.init : RefSt Nat J) [evW 0 (J.str "a"), evW 1 (J.str "b")]).hist
+      = [[(some 1, J.str "b")], [(some 1, J.str "a")]] := rfl
+  rw [hh] at h1 h2
+  simp only [List.mem_cons, List.mem_nil_iff, or_false] at h1 h2
+  rcases h1 with rfl | rfl <;> rcases h2 with rfl | rfl <;>
+    simp only [List.mem_cons, List.mem_nil_iff, or_false, Prod.mk.injEq] at e1 e2 <;>
+    obtain ⟨_, rfl⟩ := e1 <;> obtain ⟨_, rfl⟩ := e2 <;> first | rfl | (exact absurd hv (by decide))
+
 end Examples
 
 /-! ### Part II — the start-up gate -/
@@ -313,11 +337,17 @@ theorem inv_of_reach {s : GState R O} (h : Reach s) : Inv s := by
   obtain ⟨ls, hls⟩ := h
   exact run_inv ls inv_init hls
 
-/-- **Gate safety.** In every reachable state — i.e. for every interleaving of the orchestrator
-    (any number of `spawn_missing_watchers` batches), the watchers' listings and the workers — if
+/-- **Gate safety (start-up kinds).** In every reachable state — i.e. for every interleaving of the
+    orchestrator (any number of `spawn_missing_watchers` batches, also empty ones: a namespaced
+    operator starts with an empty batch), the watchers' listings and deaths, and the workers — if
     some worker has reached the handlers (`process_resource_causes`: change handlers, daemons,
-    timers), then the start-up batch is complete, every indexed kind of it has delivered `LISTED`,
-    and every object of those initial listings has been through `index_resource`. -/
+    timers), then every START-UP kind (every indexed kind spawned before anybody had seen the set
+    on — `first`; in both real start-ups: every kind of the first non-empty batch) has delivered
+    `LISTED`, and every object of those initial listings has been through `index_resource`.
+
+    Full clause "… until EVERY indexed resource kind has been listed and indexed once", read for
+    every kind spawned so far (`∀ reachable s, step s (.handle r o) = some s' → Ready s`), is FALSE
+    of the code by design — see `late_kind_witness` (finding C17-F4). -/
 theorem gate_safe {s : GState R O} (h : Reach s) (hh : s.handled = true) : Ready1 s := by
   have hi := inv_of_reach h
   cases he : s.everOn with
@@ -362,30 +392,41 @@ theorem ungated_only_after_ready {s : GState R O} (h : Reach s) (ro : R × O) (w
   | false => have := ((hi.a he).2 ro w hw).1; simp [hg] at this
 
 /- Full statement of "the gate can always open" (FALSE of the code and of the model, see
-   `gate_stuck_witness`):
+   `stuck_of_leak` and the two reachable witnesses):
      ∀ s, Reach s → ∃ ls s', run .none s ls = some s' ∧ Open s'
    This is a liveness statement BEYOND property C17 (whose gate clause is pure safety); it is kept
    here because a safety theorem about a gate that could never open would be hollow. -/
-/-- **The gate can open, partial**: from every reachable state in which no indexing cycle has ended
-    without reaching `drop_toggle` (`failed = false`: every `index_resource` call so far returned,
-    no cycle was swallowed or skipped by the error throttler) there is a continuation — the
-    pending spawns, the toggles of watchers caught between `is_on()` and `make_toggle`, the
-    outstanding LISTEDs, and each started `index_resource` returning — after which the set is on
-    and every worker is past the gate. Possibility, not fairness. The guard is what the code
-    needs: see `gate_stuck_witness` for the raising path. -/
-theorem gate_can_open_partial {s : GState R O} (h : Reach s) (hf : s.failed = false) :
+/-- **The gate can open, partial**: from every reachable `Healthy` state (nothing leaked, every
+    per-object toggle in the set belongs to a live worker whose `index_resource` is running or has
+    returned) there is a continuation — the pending spawns, the toggles of watchers caught between
+    `is_on()` and `make_toggle`, the outstanding LISTEDs, each started `index_resource` returning —
+    after which the set is on and every worker is past the gate. Possibility, not fairness: the
+    continuation uses no `indexFail` and no `die`. Outside the guard are (a) states with a leaked
+    toggle — provably stuck for ever (`stuck_of_leak`), reachable by a failed indexing cycle
+    followed by the worker's idle exit (`gate_stuck_witness`) and by a watcher that ends before its
+    LISTED (`gate_stuck_dead_watcher_witness`); (b) states in which an idle worker still holds its
+    toggle after a failed cycle — these open only if another event of that object arrives. -/
+theorem gate_can_open_partial {s : GState R O} (h : Reach s) (hh : Healthy s) :
     ∃ ls s', run .none s ls = some s' ∧ Open s' := by
   obtain ⟨ls0, hls0⟩ := h
-  obtain ⟨ls, s', h1, h2, _⟩ := can_open_aux (mu s) s (Nat.le_refl _) (run_inv ls0 inv_init hls0)
-    (run_pinv ls0 inv_init pinv_init hls0 hf) hf
-  exact ⟨ls, s', h1, h2⟩
+  exact can_open_aux (mu s) s (Nat.le_refl _) (run_inv ls0 inv_init hls0)
+    (PInv.ofU (run_pinvU ls0 inv_init pinvU_init hls0) hh)
+
+/-- **A stranded toggle closes the gate for good**: once a per-object toggle has leaked (its worker
+    exited without `drop_toggle`) or a per-kind toggle has (its watcher ended before `LISTED`), the
+    set is never on again, on any continuation. (Observation beyond the property; proposals
+    `fix-C17F3`, `fix-C17N1`.) -/
+theorem gate_stuck_of_leak {s : GState R O} (hl : s.leaked ≠ [] ∨ s.leakedK ≠ []) (ls : List (Label R O))
+    (s' : GState R O) (h : run .none s ls = some s') : s'.isOn = false :=
+  stuck_of_leak hl ls s' h
 
 end
 
-/-! #### non-vacuity: the gate does open on a real start-up, and broken variants violate `Ready1` -/
+/-! #### non-vacuity: both real start-ups, later batches, watcher death; broken variants -/
 
-/-- two indexed kinds and one plain kind; objects 7, 8 of kind 1 and 9 of kind 2; staggered LISTED;
-    then a second batch with kind 4 while the detached watcher of kind 1 keeps handling -/
+/-- CLUSTER-WIDE start-up (one batch): two indexed kinds and one plain kind; objects 7, 8 of kind 1
+    and 9 of kind 2; staggered LISTED; a late toggle re-closes the gate; then a second batch with
+    kind 4 while the detached watcher of kind 1 keeps handling -/
 private def goodTrace : List (Label Nat Nat) :=
   [ .spawnBegin [(1, true), (2, true), (3, false)], .spawn 1, .check 1 7 false, .arrive 1 7 true true,
     .spawn 2, .listed 1, .spawn 3, .spawnEnd, .index 1 7, .drop 1 7, .check 3 5 false, .arrive 3 5 true false,
@@ -402,21 +443,49 @@ private def goodTrace : List (Label Nat Nat) :=
     .check 2 3 false, .arrive 2 3 true true, .index 2 3, .drop 2 3, -- kind 2 (still gating) waits for kind 4
     .spawnEnd, .check 4 1 false, .arrive 4 1 true true, .listed 4, .index 4 1, .drop 4 1, .pass 2 3, .pass 4 1 ]
 
-example : (run .none GState.init goodTrace).map (fun s => (s.handled, readyB s, ready1B s)) = some (true, true, true) := by
+example : (run .none GState.init goodTrace).map (fun s => (s.handled, s.first, readyB s, ready1B s, healthyB s))
+    = some (true, [1, 2], true, true, true) := by decide
+
+/-- NAMESPACED start-up: the orchestrator's first batch is EMPTY (no namespaces known yet), the
+    kinds — (resource, namespace) pairs 11, 12, 21 — come with the second one. `first` is exactly
+    these kinds (not `[]`), so `gate_safe` says what the property asks. -/
+private def nsTrace : List (Label Nat Nat) :=
+  [ .spawnBegin [], .spawnEnd,
+    .spawnBegin [(11, true), (12, true), (21, true)], .spawn 11, .check 11 7 false, .arrive 11 7 true true,
+    .listed 11, .index 11 7, .drop 11 7, .spawn 12, .spawn 21, .spawnEnd,
+    .listed 21, .check 12 9 false, .arrive 12 9 true true, .index 12 9, .listed 12, .drop 12 9,
+    .pass 11 7, .handle 11 7, .pass 12 9, .handle 12 9 ]
+
+example : (run .none GState.init nsTrace).map (fun s => (s.handled, s.first, ready1B s))
+    = some (true, [11, 12, 21], true) := by decide
+
+/-- before the last LISTED of the namespaced start-up nobody can pass -/
+example : (run .none GState.init (nsTrace.take 16 ++ [.drop 12 9, .pass 11 7]) : Option (GState Nat Nat)).isNone = true := by
   decide
 
-/-- in the middle of the second batch: handlers run (`Ready1`) although not every kind is listed (`¬Ready`) -/
-example : (run .none GState.init (goodTrace.take 55)).map (fun s => (s.handled, readyB s, ready1B s))
-    = some (true, false, true) := by decide
+/-- **By design (finding C17-F4): a kind discovered after the gate was seen open is not awaited.**
+    Reachable: handlers of kind 1 (detached watcher) start while the later kind 4 is spawned, its
+    toggle in the set, its listing not delivered — `Ready` (every kind spawned so far is listed) is
+    false at that `handle`. So the unrestricted clause is false of the code; `gate_safe` is the
+    clause for the start-up kinds. -/
+theorem late_kind_witness : ∃ (ls : List (Label Nat Nat)) (s s' : GState Nat Nat),
+    run .none GState.init ls = some s ∧ step .none s (.handle 1 8) = some s' ∧
+    aget 4 s.spawned = some true ∧ 4 ∉ s.listed ∧ ¬ Ready s := by
+  refine ⟨goodTrace.take 49, _, _, rfl, rfl, by decide, by decide, ?_⟩
+  intro h
+  have := h.2.2.2.1 4 (by decide)
+  revert this
+  decide
 
--- the guard of `gate_can_open_partial` holds on this (non-trivial, two-batch) reachable state
-example : (run .none GState.init goodTrace).map (fun s => s.failed) = some false := by decide
+-- the guard of `gate_can_open_partial` holds in the middle of a start-up (toggles held by live workers)
+example : (run .none GState.init (nsTrace.take 15)).map (fun s => (healthyB s, s.isOn)) = some (true, false) := by
+  decide
 
 -- a failed cycle alone is not fatal: a later event of the same object re-indexes and drops the toggle
 example : (run .none GState.init
     [ .spawnBegin [(1, true)], .spawn 1, .spawnEnd, .check 1 7 false, .arrive 1 7 true true, .listed 1,
       .indexFail 1 7, .again 1 7, .index 1 7, .drop 1 7, .pass 1 7, .handle 1 7 ] : Option (GState Nat Nat)).map
-    (fun s => (s.failed, s.handled, ready1B s)) = some (true, true, true) := by decide
+    (fun s => (healthyB s, s.handled, ready1B s)) = some (true, true, true) := by decide
 
 /-- the gate refuses to let a waiter pass while a kind is still listing -/
 example : (run .none GState.init
@@ -424,23 +493,29 @@ example : (run .none GState.init
       .check 2 9 false, .arrive 2 9 true true, .index 2 9, .drop 2 9, .pass 2 9 ] : Option (GState Nat Nat)).isNone = true := by
   decide
 
+/-! The next three are about MUTATED variants of the transition system (`Bug`), not about the code:
+    they show that `gate_safe` is not vacuous and that each mechanism is load-bearing — also with
+    the namespaced start-up's empty batch in front. -/
+
 /-- Without the orchestration blocker a worker reaches the handlers while kind 2 has no toggle yet. -/
 theorem noBlocker_witness : ∃ (ls : List (Label Nat Nat)) (s : GState Nat Nat),
     run .noBlocker GState.init ls = some s ∧ s.handled = true ∧ ¬ Ready1 s := by
-  refine ⟨[ .spawnBegin [(1, true), (2, true)], .spawn 1, .check 1 7 false, .arrive 1 7 true true, .listed 1,
-            .index 1 7, .drop 1 7, .pass 1 7, .handle 1 7 ], _, rfl, by decide, ?_⟩
+  refine ⟨[ .spawnBegin [], .spawnEnd,
+            .spawnBegin [(1, true), (2, true)], .spawn 1, .check 1 7 false, .arrive 1 7 true true, .listed 1,
+            .index 1 7, .drop 1 7, .pass 1 7, .handle 1 7, .spawn 2 ], _, rfl, by decide, ?_⟩
   intro h
-  have := h.1
+  have := h.1 2 (by decide)
   revert this
   decide
 
-/-- If the per-kind toggle is not held until LISTED, handlers start before the kind is listed. -/
+/-- If the per-kind toggle is not held until LISTED, handlers start before the kind is listed
+    (namespaced start-up: empty batch first). -/
 theorem noKindToggle_witness : ∃ (ls : List (Label Nat Nat)) (s : GState Nat Nat),
     run .noKindToggle GState.init ls = some s ∧ s.handled = true ∧ ¬ Ready1 s := by
-  refine ⟨[ .spawnBegin [(1, true), (2, true)], .spawn 1, .spawn 2, .spawnEnd, .check 1 7 true,
-            .arrive 1 7 false false, .index 1 7, .skip 1 7, .handle 1 7 ], _, rfl, by decide, ?_⟩
+  refine ⟨[ .spawnBegin [], .spawnEnd, .spawnBegin [(1, true), (2, true)], .spawn 1, .spawn 2, .spawnEnd,
+            .check 1 7 true, .arrive 1 7 false false, .index 1 7, .skip 1 7, .handle 1 7 ], _, rfl, by decide, ?_⟩
   intro h
-  have := h.2.1 2 (by decide)
+  have := h.1 2 (by decide)
   revert this
   decide
 
@@ -452,24 +527,31 @@ theorem dropBeforeIndex_witness : ∃ (ls : List (Label Nat Nat)) (s : GState Na
             .check 1 8 false, .arrive 1 8 true true,
             .listed 1, .drop 1 7, .index 1 8, .drop 1 8, .pass 1 8, .handle 1 8 ], _, rfl, by decide, ?_⟩
   intro h
-  have := h.2.2 (1, 7) (by decide) (by decide)
+  have := h.2 (1, 7) (by decide) (by decide)
   revert this
   decide
 
 /-- **The raising path** (observation beyond the property; proposal `proposals/fix-C17F3`): the
     indexing cycle of a listed object ends without `drop_toggle` (`indexFail`: e.g. a `when=` filter
     of an index handler raised and the throttler swallowed it), no further event of that object
-    comes, its worker exits after the idle timeout — the toggle stays in the set for good, and on
-    NO continuation is the set ever on again: no handler of any object of any kind will start. -/
-theorem gate_stuck_witness : ∃ s : GState Nat Nat, Reach s ∧
+    comes, its worker exits after the idle timeout — a reachable state with a leaked toggle. -/
+theorem gate_stuck_witness : ∃ s : GState Nat Nat, Reach s ∧ s.leaked ≠ [] ∧
     ∀ ls s', run .none s ls = some s' → s'.isOn = false := by
   refine ⟨_, ⟨[ .spawnBegin [(1, true)], .spawn 1, .spawnEnd, .check 1 7 false, .arrive 1 7 true true,
-                .listed 1, .indexFail 1 7, .exit 1 7 ], rfl⟩, ?_⟩
+                .listed 1, .indexFail 1 7, .exit 1 7 ], rfl⟩, by decide, ?_⟩
   intro ls s' h
-  have hm := run_leaked_mono ls h (1, 7) (by decide)
-  cases hl : s'.leaked with
-  | nil => rw [hl] at hm; cases hm
-  | cons x r => simp [GState.isOn, hl]
+  exact stuck_of_leak (Or.inl (by decide)) ls s' h
+
+/-- **The dying watcher** (observation beyond the property, AUDIT_B2 §D #8; proposal
+    `proposals/fix-C17N1`): the watcher of an indexed kind ends before its LISTED (its first LIST
+    answered 404, or its namespace was deleted during the listing) — its kind toggle stays in the
+    set; even when the kind is spawned again and lists fine, the set is never on again. -/
+theorem gate_stuck_dead_watcher_witness : ∃ s : GState Nat Nat, Reach s ∧ s.leakedK ≠ [] ∧
+    ∀ ls s', run .none s ls = some s' → s'.isOn = false := by
+  refine ⟨_, ⟨[ .spawnBegin [(1, true), (2, true)], .spawn 1, .spawn 2, .spawnEnd, .listed 1, .die 2,
+                .spawnBegin [(2, true)], .spawn 2, .spawnEnd, .listed 2 ], rfl⟩, by decide, ?_⟩
+  intro ls s' h
+  exact stuck_of_leak (Or.inr (by decide)) ls s' h
 
 end Gate
 end Kopf.C17
